@@ -17,6 +17,7 @@ launch method kills it.  All schedules up to a preemption bound are explored.
 '''
 
 import os
+import collections
 import sys
 import copy
 import queue
@@ -560,21 +561,37 @@ def run_one(scn, prefix):
     return w.sched, w
 
 
-def _job(i):
+def _job(arg):
+    """
+    arg = (scenario index, None): run the default schedule, judge it, return
+          the roots of the (disjoint) subtrees below it
+    arg = (scenario index, [prefixes], cap): explore those subtrees
+    """
     global _sbox
+    i, roots, cap = arg
     part = report.Part()
     scn  = _scns[i]
+    bound = scn.get('bound', _bound)
     _sbox = os.path.join(os.environ.get('RPMC_SCRATCH', '/tmp'),
                          'sbox.%d' % os.getpid())
     os.makedirs(_sbox, exist_ok=True)
     n = 0
     checked_det = False
+    kids = None
     try:
-        for sch, w in rs.explore(lambda p: run_one(scn, p), _bound,
-                                 max_exec=scn.get('max_exec')):
+        if roots is None:
+            sch, w = run_one(scn, [])
+            n += 1
+            judge(part, w)
+            kids = rs.children(sch, [], bound)
+            it = ()
+        else:
+            it = rs.explore(lambda p: run_one(scn, p), bound, max_exec=cap,
+                            roots=roots)
+        for sch, w in it:
             if sch is None:
                 part.cap('scenario %s: execution cap hit, %d schedules left '
-                         'at preemption bound %d' % (scn['name'], w, _bound))
+                         'at preemption bound %d' % (scn['name'], w, bound))
                 break
             n += 1
             n_viol = part.nviol
@@ -591,23 +608,30 @@ def _job(i):
                                                       out, out2))
     except rs.Divergence as e:
         part.violation('HARNESS#divergence|%s' % scn['name'], repr(e), None)
-    part.cover(executions=n, states=n, transitions=n, scenarios=1,
+    part.cover(executions=n, states=n, transitions=n,
+               scenarios=1 if roots is None else 0,
                traces_validated_against_impl=n)
-    if i % 7 == 0:
-        part.sample({'scenario': scn['name'], 'schedules': n,
-                     'preemption_bound': _bound})
-    return part.dump()
+    res = part.dump()
+    res['kids'] = kids
+    res['scn']  = i
+    return res
 
 
 def run_exec(ctx, pid):
     global _scns, _bound
     _scns  = scenarios(ctx.quick)
     _bound = 1 if ctx.quick else 2
-    cap    = 6000 if ctx.quick else 60000
+    cap    = 6000 if ctx.quick else 400000
     for s in _scns:
         s['max_exec'] = cap
-    errs = list()
-    for res in seams.pmap(_job, range(len(_scns)), ctx.workers):
+        if pid != 'C07' and not ctx.quick and s['n_tasks'] > 1:
+            # the companion properties read other clauses off the same
+            # executions; the two-task scenarios at bound 2 are C07's
+            s['bound'] = 1
+    errs  = list()
+    count = collections.Counter()
+
+    def take(res):
         keep = list()
         for key, detail, replay in res['violations']:
             prop, rest = key.split('#', 1)
@@ -617,7 +641,30 @@ def run_exec(ctx, pid):
                 keep.append((rest, detail, replay))
         res['violations']  = keep
         res['nviol_extra'] = 0
+        count[res['scn']] += res.get('cover', {}).get('executions', 0)
         ctx.merge(res)
+
+    # pass 1: the default schedule of every scenario; pass 2: the subtrees
+    # below it, spread over the workers
+    jobs = list()
+    for res in seams.pmap(_job, [(i, None, None)
+                                 for i in range(len(_scns))], ctx.workers):
+        kids = res.pop('kids')
+        i    = res['scn']
+        take(res)
+        per  = max(1, len(kids) // 12)
+        chunks = [kids[k:k + per] for k in range(0, len(kids), per)]
+        for ch in chunks:
+            jobs.append((i, ch, max(1, cap // len(chunks))))
+    # big subtrees (early deviations) first
+    jobs.sort(key=lambda j: -len(j[1][0]) if j[1] else 0)
+    for res in seams.pmap(_job, jobs, ctx.workers):
+        res.pop('kids')
+        take(res)
+    for i in sorted(count)[::7]:
+        ctx.sample({'scenario': _scns[i]['name'], 'schedules': count[i],
+                    'preemption_bound': _scns[i].get('bound', _bound)},
+                   limit=8)
     if errs:
         raise RuntimeError('harness errors: %s' % errs[:3])
     ctx.set(preemption_bound=_bound)
